@@ -87,6 +87,25 @@ def call(k):
             if 'alert' in m.lower():
                 m = Server.remove_alert_word(m)
             return dict(relayed=m, call=MessageInterface.parse_bid(m, a[1]).idx)
+        if f == 'server_auction':
+            # the real Server.bidding_phase fed from pre-filled queues: a = [dealer idx, [[seat idx, message], ...]]
+            import pathlib, queue
+            srv = Server('localhost', 0, pathlib.Path('unused.json'))
+
+            class Q(queue.Queue):
+                def get(self, block=True, timeout=None):
+                    return queue.Queue.get(self, block=False)      # an empty queue means the script is exhausted: raise
+            srv.received_message_queues = {p: Q() for p in SEATS}
+            for seat, m in a[1]:
+                srv.received_message_queues[SEATS[seat]].put(m)
+            contract, hist = srv.bidding_phase(SEATS[a[0]], VULS[0])
+            relayed = {}
+            for i, p in enumerate(SEATS):
+                items = []
+                while not srv.sent_message_queues[p].empty():
+                    items.append(srv.sent_message_queues[p].get())
+                relayed[i] = items
+            return dict(hist=[b.idx for b in hist], relayed=relayed)
         if f == 'remove_alert':
             return dict(text=Server.remove_alert_word(a[0]))
         if f == 'card_str':
